@@ -83,7 +83,7 @@ fn decoder_case() -> BoxedStrategy<Case> {
                 let kept = pattern.as_ref().map_or(n, |p| n / p.len() * p.iter().filter(|&&b| b).count());
                 let pat = pattern.clone();
                 let full = llr_vector(&hh);
-                let call = (full, any::<bool>(), 0..=n, prop_oneof![2 => Just(0u32), 3 => 1u32..=4, 2 => 5u32..=30], any::<bool>()).prop_map(move |(llrs, as_f32, output_len, limit, full_out)| {
+                let call = (full, any::<bool>(), 0..=n, prop_oneof![4 => Just(0u32), 6 => 1u32..=4, 4 => 5u32..=30, 1 => prop_oneof![Just(1_000_000u32), Just(i32::MAX as u32), Just(i32::MAX as u32 + 1), Just(u32::MAX)]], any::<bool>()).prop_map(move |(llrs, as_f32, output_len, limit, full_out)| {
                     // keep the LLRs of the transmitted blocks only
                     let kept_llrs: Vec<f64> = match &pat {
                         None => llrs,
@@ -251,16 +251,7 @@ fn run_case(case: &Case) -> Check {
             let punct = pattern.as_ref().map(|p| Puncturer::new(p));
             for (i, c) in calls.iter().enumerate() {
                 let llrs = fx_vec(&c.llrs);
-                let mut out = vec![0xEEu8; c.output_len + 4]; // guard bytes behind the buffer
-                let ret = unsafe {
-                    if c.as_f32 {
-                        let l32: Vec<f32> = llrs.iter().map(|&x| x as f32).collect();
-                        ldpc_toolbox_decoder_decode_f32(handle, out.as_mut_ptr(), c.output_len, l32.as_ptr(), l32.len(), c.limit)
-                    } else {
-                        ldpc_toolbox_decoder_decode_f64(handle, out.as_mut_ptr(), c.output_len, llrs.as_ptr(), llrs.len(), c.limit)
-                    }
-                };
-                // reference: fresh Rust decoder on the depunctured LLRs (f32 input behaves as its widening)
+                // reference input: the depunctured LLRs (f32 input behaves as its widening)
                 let wide: Vec<f64> = if c.as_f32 { llrs.iter().map(|&x| x as f32 as f64).collect() } else { llrs.clone() };
                 let full = match &punct {
                     Some(p) => p.depuncture(&wide).map_err(|e| Fail::new("harness", format!("depuncture: {e}")))?,
@@ -272,15 +263,34 @@ fn run_case(case: &Case) -> Check {
                 // same construction path as the wrapper: the matrix parsed from the alist text
                 // (the internal entry order, which order-sensitive arithmetics see, follows the text)
                 let parsed = ldpc_toolbox::sparse::SparseMatrix::from_alist(&text).map_err(|e| Fail::new("harness", format!("own alist rejected: {e}")))?;
+                // very large limits ("no limit"): only meaningful when the frame converges, which a
+                // fresh Rust decoder with a limit of 64 decides first (a frame that does not converge
+                // would keep both sides busy for 2^31 iterations)
+                let mut limit = c.limit;
+                if limit > 1000 {
+                    let mut probe = imp_rust.build_decoder(parsed.clone());
+                    if probe.decode(&full, 64).is_err() {
+                        limit = 64;
+                    }
+                }
+                let mut out = vec![0xEEu8; c.output_len + 4]; // guard bytes behind the buffer
+                let ret = unsafe {
+                    if c.as_f32 {
+                        let l32: Vec<f32> = llrs.iter().map(|&x| x as f32).collect();
+                        ldpc_toolbox_decoder_decode_f32(handle, out.as_mut_ptr(), c.output_len, l32.as_ptr(), l32.len(), limit)
+                    } else {
+                        ldpc_toolbox_decoder_decode_f64(handle, out.as_mut_ptr(), c.output_len, llrs.as_ptr(), llrs.len(), limit)
+                    }
+                };
                 let mut fresh = imp_rust.build_decoder(parsed);
-                let want = fresh.decode(&full, c.limit as usize);
+                let want = fresh.decode(&full, limit as usize);
                 let (want_ret, want_word) = match &want {
                     Ok(o) => (o.iterations as i32, &o.codeword),
                     Err(o) => (-1, &o.codeword),
                 };
                 if ret != want_ret {
                     unsafe { ldpc_toolbox_decoder_dtor(handle) };
-                    return Err(Fail::new("return-value", format!("{imp}: call {i} ({}, limit {}) returned {ret}, the Rust decoder gives {want_ret} (iterations on success, -1 on failure)", if c.as_f32 { "f32" } else { "f64" }, c.limit)));
+                    return Err(Fail::new("return-value", format!("{imp}: call {i} ({}, limit {}) returned {ret}, the Rust decoder gives {want_ret} (iterations on success, -1 on failure)", if c.as_f32 { "f32" } else { "f64" }, limit)));
                 }
                 if out[..c.output_len] != want_word[..c.output_len] {
                     unsafe { ldpc_toolbox_decoder_dtor(handle) };
@@ -415,7 +425,7 @@ pub fn property() -> Property {
         id: "C19",
         subs: vec![Box::new(Sub {
             name: "c-api",
-            rule: "each case in a child process (abort isolation). Decoder handles: alist (own writer, padded or not, as text or as a file) of a C01-style matrix, one of the 36 names, pattern '' or a 0/1 list with >= one 1 whose length divides n, then 1..=8 decode calls (f64 or f32 buffers of the punctured length, output_len in 0..=n, limits incl. 0): return value = iterations / -1 and the output = leading bits of what a fresh Rust decoder returns for Puncturer::depuncture(llrs) (f32 widened); guard bytes behind the buffer untouched. Encoder handles: C02-style matrices, pattern, 1..=4 messages: output = punctured Encoder::encode; a singular tail must give null. Failing constructors: malformed alist texts (C08 generator, filtered to texts the Rust parser rejects), unknown names, malformed patterns, missing file, directory instead of file, singular tail -> null. Non-trivial = decoder handle with >= 2 calls, encoder with a pattern, or a failing constructor; inner = decode calls",
+            rule: "each case in a child process (abort isolation). Decoder handles: alist (own writer, padded or not, as text or as a file) of a C01-style matrix, one of the 36 names, pattern '' or a 0/1 list with >= one 1 whose length divides n, then 1..=8 decode calls (f64 or f32 buffers of the punctured length, output_len in 0..=n, limits incl. 0 and, for frames that a fresh Rust decoder converges on within 64 iterations, 10^6, 2^31-1, 2^31 and 2^32-1): return value = iterations / -1 and the output = leading bits of what a fresh Rust decoder returns for Puncturer::depuncture(llrs) (f32 widened); guard bytes behind the buffer untouched. Encoder handles: C02-style matrices, pattern, 1..=4 messages: output = punctured Encoder::encode; a singular tail must give null. Failing constructors: malformed alist texts (C08 generator, filtered to texts the Rust parser rejects), unknown names, malformed patterns, missing file, directory instead of file, singular tail -> null. Non-trivial = decoder handle with >= 2 calls, encoder with a pattern, or a failing constructor; inner = decode calls",
             cases: |t| t.pick(12_000, 400_000),
             strategy,
             check,
